@@ -33,7 +33,7 @@ check("C07",
       "Theorems (Coq): for EVERY handler semantics above the tokenizer, any two chunkings of the same byte string give the same events and final state "
       "(feed_app / chunk_independent, by induction, no bound on sizes); instantiated for a transcription of banana.py's discardCount / inOpen / "
       "unslicer-stack logic; incremental = one-pass decoding; abandonment is final; every well-formed token stream encoded by the translated "
-      "sendToken/int2b128 scans back to the same tokens (token and stream round trip); 65 header bytes end the connection; a violation never pops the "
+      "sendToken/int2b128 scans back to the same tokens (token and stream round trip); object numbering counts EVERY OPEN token -- built, rejected or discarded -- so back-references after a violation resolve as sent (lib/BananaRecvCount.v); 65 header bytes end the connection; a violation never pops the "
       "root and counts exactly the popped frames. Tie: type bytes, SIZE_LIMIT and the four integer codecs + the integer branch of sendToken are "
       "translated on every run; the real Banana class is driven with policy unslicers (21 opentype policies, 7 root modes) on well-formed and mutated "
       "streams under whole / bytewise / random chunkings and compared event by event and snapshot by snapshot (buffer, skip, discard, depth, inOpen, "
